@@ -236,7 +236,10 @@ def cubic_spline(
         b = inputs_c[quadratic_mask]
         c = inputs_d[quadratic_mask] - inputs[quadratic_mask]
         # Numerically stable form of (-b + sqrt(b^2 - 4ac)) / 2a: finite for a -> 0 (linear segment).
-        alpha = (2 * c) / (-b - torch.sqrt(b.pow(2) - 4 * a * c))
+        # (The discriminant is clamped at zero: dropping the small cubic term can leave the quadratic
+        # just short of the target value near the end of a wide, flat bin, and sqrt of the negative
+        # discriminant made the whole result NaN.)
+        alpha = (2 * c) / (-b - torch.sqrt(torch.clamp(b.pow(2) - 4 * a * c, min=0)))
         outputs[quadratic_mask] = alpha + input_left_cumwidths[quadratic_mask]
 
         # The solution lies in the bin that contains the input; rounding must not move it outside.
